@@ -9,16 +9,16 @@ TECH = "deterministic simulation with fault injection (seeded scheduler over rea
 
 CLAIMED = {
     "C01": dict(level="exploration", ref="DESIGN.md §3 C01",
-        text="Seeded search: conforming multi-link streams from the upstream model x five check modes x options x file/pipe x schedule policies x capacity caps x benign I/O faults; oracle: zero errors, no ERROR line, exit 0, statistics/report totals 0. Sampling, not proof: the grammar is unbounded. Command lines also carry -v 0..4 and custom-check files that conforming data satisfies.",
+        text="Seeded search: conforming multi-link streams from the upstream model x five check modes x options x file/pipe x schedule policies x capacity caps x benign I/O faults; oracle: zero errors, no ERROR line, exit 0, statistics/report totals 0. Sampling, not proof: the grammar is unbounded. Command lines also carry -v 0..4 and custom-check files that conforming data satisfies. Shapes added: 13-24 links, pages filled to exactly 507/508/509 words, a full 8 KiB page and the 10000-byte limit. Every scenario also reports a bounded data queue requested with more than 2^20 slots (allocation size chosen by the program).",
         note="Trusts the generator's reading of 'conforming' (DESIGN.md appendix A) and the scheduler granularity (switches at channel ops/spawn/join/exit)."),
     "C04": dict(level="exploration", ref="DESIGN.md §3 C04",
         text="Seeded search over random bytes, byte-corrupted framed streams and conforming streams with 1-4 structure-aware corruption faults x all modes/options x file/pipe x schedules x read faults (short, EINTR, EIO); oracle: no panic in any managed thread, no deadlock, step budget, wall-clock limit, no fatal signal, exit status in {0,1,N}. Hangs are deterministic deadlock reports under the scheduler. The thorough tier runs the scenario twice: 150000 cases with simulator + code under test built with AddressSanitizer (memory errors abort the simulated process), then 600000 cases with the plain build. Workload additions: the repository's sample files with byte corruption, a no-command mode, many batches with a capped reader queue, an ignored -o, clock jumps.",
         note="panic=unwind build of the same sources stands in for the shipped panic=abort build; allocation failure is out of scope; std itself is not ASan-instrumented."),
     "C05": dict(level="exploration", ref="DESIGN.md §3 C05",
-        text="For each (input, command line): one canonical-schedule run, then 8 (quick) / 24 (thorough) runs under random, PCT and starvation policies with capped queues and benign I/O faults; all listed outputs must be byte-identical (WARN lines as a multiset). Distinct interleavings and collector arrival orders are measured. Workloads added after seeded-change rounds: an overlap (memory size > offset-to-next, or offset-to-next shrunk into the payload) that makes two validators report at ONE position - different kinds and same kind with different bytes; an ignored -o next to the check; the repository's sample files; link / FEE / stave filters, half of them on a stream whose first packet belongs to another known system and is skipped (reader-side and analysis-side facts race to the collector).",
+        text="For each (input, command line): one canonical-schedule run, then 8 (quick) / 24 (thorough) runs under random, PCT and starvation policies with capped queues and benign I/O faults; all listed outputs must be byte-identical (WARN lines as a multiset). Distinct interleavings and collector arrival orders are measured. Workloads added after seeded-change rounds: an overlap (memory size > offset-to-next, or offset-to-next shrunk into the payload) that makes two validators report at ONE position - different kinds and same kind with different bytes; an ignored -o next to the check; the repository's sample files; link / FEE / stave filters, half of them on a stream whose first packet belongs to another known system and is skipped (reader-side and analysis-side facts race to the collector); custom checks files and -w display filters; the threads' hash-table seeds follow the run's schedule seed (getrandom seam), so an order leaking from a hash table counts as schedule dependence.",
         note="Thread switches happen only at channel operations, spawn, join and thread exit; sound for this code base because all cross-thread effects are such operations plus two flags read at loop heads."),
     "C03": dict(level="exploration", ref="DESIGN.md §3 C03",
-        text="Well-framed streams with arbitrary headers (0/1/batch multiples/2-260 packets, thorough to 20000; payloads 0-10000 bytes or word sequences) x filter x 3-4 payload-handling paths (view rdh from file=seek and pipe=read-discard, check sanity skipped/loaded, data view) under schedules, capped queues, short reads/EINTR; oracle = independent chain walker: rows, offsets, decoded fields, word bytes, rdhs_seen/rdhs_filtered/payload_size. Also: the repository's sample files; one stream beyond 4 GiB per quick run (rows of view rdh and the order of error positions on both sides of 2^32, delivered through a repeating pipe seam).",
+        text="Well-framed streams with arbitrary headers (0/1/batch multiples/2-260 packets, thorough to 20000; payloads 0-10000 bytes or word sequences) x filter x 3-4 payload-handling paths (view rdh from file=seek and pipe=read-discard, check sanity skipped/loaded, data view) under schedules, capped queues, short reads/EINTR; oracle = independent chain walker: rows, offsets, decoded fields, word bytes, rdhs_seen/rdhs_filtered/payload_size. Also: the repository's sample files; one stream beyond 4 GiB per quick run (rows of view rdh and the order of error positions on both sides of 2^32, delivered through a repeating pipe seam); streams of 120-350 jumbo packets (8200-10000 payload bytes: whole batches above 800 KiB); an ignored -o next to filtered views and checks (no second consumer of the reader's batches).",
         note="Walker and RDH decoder in itsgen are written from the framing rules, not from the tool's scanner; word offsets only judged when payload layout agrees with the header's data format."),
     "C08": dict(level="exploration", ref="DESIGN.md §3 C08",
         text="Well-framed arbitrary streams x filter kind x EVERY distinct value present (+1 absent) x file/stdout destination x file/pipe source under schedules, capped reader->writer queue, short reads/writes, EINTR; oracle: byte-exact concatenation of the walker's matching packets, partition over all values, each output well framed, idempotence, Filter Stats count. Also: destination and statistics files left by an earlier run (stale content must be replaced), the repository's sample files, clock jumps, and one run with more selected packets than the writer buffers (1 Mi) through the repeating pipe seam; a custom end-of-run expectation that fails (report and exit status change, the bytes do not); a destination FILE whose name is the word stdout.",
@@ -45,22 +45,22 @@ CLAIMED = {
         text="Arbitrary-header streams with random ITS words (all flag combinations) and conforming streams x three views x filters x file/pipe x schedules x short writes; rows parsed back: offsets, raw bytes, decoded attributes against a reference decoding from the documented bit layouts; styled == unstyled content; conforming data shows no error. Also: payloads up to 9900 bytes, unknown ID 0xFF, the repository's sample files with flipped word bits.",
         note="Trigger-kind priorities (SOC > SOT > HB > PhT; TDH: SOC > Internal > PhT) are taken as documented behaviour pinned by the repository's view tests."),
     "C09": dict(level="exploration", ref="DESIGN.md §3 C09",
-        text="Seeded walks (20-600 words, illegal-word injection at 0/5/15/40 %) over the ITS word alphabet through the real ItsPayloadFsmContinuous::advance and CdpRunningValidator::check in-process; step-by-step refinement against the diagram model transcribed from the .puml: classification and successor for legal words, documented error family at the word for illegal ones. Coverage = distinct (implementation state, diagram state, word kind) tuples out of 56, reported by the check. The validator half draws varied RDH fields per packet and repeats earlier words byte for byte (state leaking through equality).",
+        text="Seeded walks (20-600 words, illegal-word injection at 0/5/15/40 %) over the ITS word alphabet through the real ItsPayloadFsmContinuous::advance and CdpRunningValidator::check in-process; step-by-step refinement against the diagram model transcribed from the .puml: classification and successor for legal words, documented error family at the word for illegal ones. Coverage = distinct (implementation state, diagram state, word kind) tuples out of 56, reported by the check. The validator half draws varied RDH fields per packet and repeats earlier words byte for byte (state leaking through equality), goes through the real do_payload_checks (payload cutting included) and has payload-error resets between packets. After a wrong-ID word in a single-successor state the diagram's successor (by the unguarded edge; after_TDH by the word's no_data bit) is demanded.",
         note="No scheduler dimension (sequential FSM owned by one thread); uses the guarded verif_state_id accessor. Exhaustive enumeration of the product would be model checking and is deliberately not the deciding step."),
     "C10": dict(level="exploration", ref="DESIGN.md §3 C10",
-        text="Per-link RDH-only histories starting at an HBF start, with bit flips over the header, boundary values, page/stop/orbit/trigger/FEE walks and packet loss/duplication/reordering, merged over 1-8 links and run through the whole pipeline under schedules in check sanity / check all x none / its. Exact two-sided oracle: [E10] iff the documented sanity predicate fails, [E11] iff the documented running automaton flags, each at the RDH's offset; nothing else reported. Also: sanity faults (one or two at once) on the FIRST RDH of a link; a fifth of the cases pins rdh_version through a custom-checks file, which must leave every other rule untouched.",
+        text="Per-link RDH-only histories starting at an HBF start, with bit flips over the header, boundary values, page/stop/orbit/trigger/FEE walks and packet loss/duplication/reordering, merged over 1-8 links and run through the whole pipeline under schedules in check sanity / check all x none / its. Exact two-sided oracle: [E10] iff the documented sanity predicate fails, [E11] iff the documented running automaton flags, each at the RDH's offset; nothing else reported. Also: sanity faults (one or two at once) on the FIRST RDH of a link; a fifth of the cases pins rdh_version through a custom-checks file, which must leave every other rule untouched; a fifth of the injected deviations are doubled on the same RDH (rules must not hide behind one another).",
         note="Reference predicate / automaton in itsgen::models are written from doc/checks_list.md with the tie-breaks of DESIGN.md §2.4 (detector-field bits 4..11 legal, BC 0xdeb legal)."),
     "C02": dict(level="exploration", ref="DESIGN.md §3 C02, appendix B",
-        text="Conforming multi-link streams + ONE entry of the stream-fault catalogue (59 entries: RDH sanity fields, packet loss/duplication/reordering, page/stop/orbit/trigger/FEE edits, status- and data-word IDs and reserved bits, state-dependent ITS rules, CDW index, lanes, excess padding, stave-level frames) at a seeded applicable position, run in all check modes under seeded schedules. One-sided oracle: >=1 message of the documented family at the offending RDH/word in every mode where the rule is active, exit status == -E value; purely stateful violations silent in check sanity. 59 catalogue entries: the TDH sanity faults also on continuation and choice-state TDHs, ID 0xFF on last words, excess padding in both data formats.",
+        text="Conforming multi-link streams + ONE entry of the stream-fault catalogue (59 entries: RDH sanity fields, packet loss/duplication/reordering, page/stop/orbit/trigger/FEE edits, status- and data-word IDs and reserved bits, state-dependent ITS rules, CDW index, lanes, excess padding, stave-level frames) at a seeded applicable position, run in all check modes under seeded schedules. One-sided oracle: >=1 message of the documented family at the offending RDH/word in every mode where the rule is active, exit status == -E value; purely stateful violations silent in check sanity. 59 catalogue entries: the TDH sanity faults also on continuation and choice-state TDHs, ID 0xFF on last words, excess padding in both data formats. Half of the stave-mode cases run once more with the stave filter of the faulty link and a trigger period configured.",
         note="The catalogue's code/offset/mode table is DESIGN.md appendix B (doc/checks_list.md + README); cascading extra errors are allowed."),
     "C06": dict(level="exploration", ref="DESIGN.md §3 C06",
-        text="Multi-link streams (conforming or with faults confined to single links): reference full run vs another merge of the same per-link sequences, the physically extracted single-link stream, a filter run, ONE single-threaded pass of the link through one real LinkValidator::run, and the stream with an extra fault on another link; messages normalised to (packet index in link, offset in packet) by the independent walker; per-link lists must be equal. Also: header-identity faults on a link's first packet, staves of one layer differing in one bit, two FEE IDs on one link, multi-link sample files; a filter run must report nothing for a link none of whose packets match.",
+        text="Multi-link streams (conforming or with faults confined to single links): reference full run vs another merge of the same per-link sequences, the physically extracted single-link stream, a filter run, ONE single-threaded pass of the link through one real LinkValidator::run, and the stream with an extra fault on another link; messages normalised to (packet index in link, offset in packet) by the independent walker; per-link lists must be equal. Also: header-identity faults on a link's first packet, staves of one layer differing in one bit, two FEE IDs on one link, multi-link sample files; a filter run must report nothing for a link none of whose packets match; link numbers from the whole 8-bit range; one case with 257-300 staves.",
         note="Grouping by link (by FEE ID in stave mode); each FEE ID is carried by one link in the generated streams."),
     "C13": dict(level="exploration", ref="DESIGN.md §3 C13",
-        text="Frames from the independent ALPIDE encoder (legal and with exactly one broken rule: lanes missing/extra/wrong group, chip or lane bunch counter, inner chip ID, chip count on inner lanes, duplicate chip, lane without chip, empty frame; optional lane announcing fatal) with seeded lane-word interleaving and continuation splits, generated twice with different pixel-hit content; exact per-frame verdict (E72/E73/E74/E75/E701 + E900x) at the frame start against the reference model, readout-flag counters against the chips' trailer flags. Half of the second variants run muted (-m) with the verdicts read from the statistics file; fatal-lane announcements fall within the first frames of a plan.",
+        text="Frames from the independent ALPIDE encoder (legal and with exactly one broken rule: lanes missing/extra/wrong group, chip or lane bunch counter, inner chip ID, chip count on inner lanes, duplicate chip, lane without chip, empty frame; optional lane announcing fatal) with seeded lane-word interleaving and continuation splits, generated twice with different pixel-hit content; exact per-frame verdict (E72/E73/E74/E75/E701 + E900x) at the frame start against the reference model, readout-flag counters against the chips' trailer flags. Half of the second variants run muted (-m) with the verdicts read from the statistics file; fatal-lane announcements fall within the first frames of a plan: one, two or three lanes in the same frame, in half of the cases another lane a frame or two later.",
         note="The frame in which a lane announces a fatal state is not judged (documentation does not say whether the announcing lane still counts)."),
     "C15": dict(level="fault_enumeration", ref="DESIGN.md §3 C15",
-        text="History of runs: A writes the statistics file, B (other schedule seed, capacity cap, benign I/O faults) must accept it; then EVERY leaf of the stored file that the run also collects is perturbed one at a time (complete enumeration per file in 2 of 3 cases) and the input is changed by one packet: B must report the mismatch and exit with the -E status. All check modes, JSON/TOML, -m on/off, conforming and corrupted inputs. Also through views (1 in 6), with filters and a first link of another detector system, frame errors on two staves, a long stale statistics file at the output path.",
+        text="History of runs: A writes the statistics file, B (other schedule seed, capacity cap, benign I/O faults) must accept it; then EVERY leaf of the stored file that the run also collects is perturbed one at a time (complete enumeration per file in 2 of 3 cases) and the input is changed by one packet: B must report the mismatch and exit with the -E status. All check modes, JSON/TOML, -m on/off, conforming and corrupted inputs. Also through views (1 in 6), with filters and a first link of another detector system, frame errors on two staves, a long stale statistics file at the output path, failing run expectations (custom checks file) whose messages and codes must round-trip, and a closed stdout (EPIPE) during every fifth drift run.",
         note="One known finding (round trip after a mid-stream fatal input error depends on scheduling) is listed in known_findings.json under its own site."),
     "C20": dict(level="exploration", ref="DESIGN.md §3 C20",
         text="Custom-check files (all subsets of cdps/triggers_pht/rdh_version with values equal to, below and above the truth; absent/commented keys; all-default file vs no file; OB chip count/orders on planned frames) and trigger period P vs internal-trigger TDH sequences generated at P' with jitter and wrap-around: [E9001]/[E9002]/[E10]/[E9004]/[E9005]/[E45] iff configured != observed, nothing else, exit status accordingly; under seeded schedules. Trigger-period workloads include frames split over two pages and configured periods of a whole orbit and more.",
